@@ -16,7 +16,7 @@ PROPS = {
     'C01': {
         'correspondence': CORR_L1,
         'coq': ['theories/Props/C01.vo', 'theories/Inst/C01_now.vo', 'theories/L2/PropsC01.vo', 'theories/L2/Inst.vo', 'theories/Inst/Fut_now.vo', 'theories/SyncFut/PropsC08.vo', 'theories/Inst/C08_now.vo', 'theories/Inst/Wrapper_now.vo'],
-        'profiles': [prof('core', (60, 15), (1500, 60)), prof('sync', (40, 15), (800, 60)), prof('fut', (50, 15), (1000, 60)), prof('fsync', (30, 10), (600, 40)), prof('pipein', (20, 10), (400, 40), extra=['--max-steps', '30000']), prof('sweep:overlap_sweep.progs', (0, 2), (0, 12)), prof('progs:fut_extra.progs', (0, 60), (0, 1500)), prof('progs:cancel.progs', (0, 100), (0, 3000)), prof('progs:syncfut_extra.progs', (0, 20), (0, 300))],
+        'profiles': [prof('core', (60, 15), (1500, 60)), prof('sync', (40, 15), (800, 60)), prof('fut', (50, 15), (1000, 60)), prof('fsync', (30, 10), (600, 40)), prof('pipein', (20, 10), (400, 40), extra=['--max-steps', '30000']), prof('sweep:overlap_sweep.progs', (0, 2), (0, 12)), prof('progs:fut_extra.progs', (0, 60), (0, 1500)), prof('progs:cancel.progs', (0, 100), (0, 3000)), prof('progs:syncfut_extra.progs', (0, 20), (0, 300)), prof('progs:pipe_yield.progs', (0, 60), (0, 1500), extra=['--max-steps', '30000'])],
         'monitors': ['C01'], 'liveness': False, 'panics': False,
         'trusted_base': L1_TRUST,
         'assumptions': ['L1: all programs of desync/sync/try_sync on any number of objects; L2: one queue with future-based operations, exclusive across awaits (the suspended operation stays in the runner\'s hand or at the head of the queue)'],
@@ -79,7 +79,7 @@ PROPS = {
     },
     'C09': {
         'correspondence': CORR_L1,
-        'coq': ['theories/Props/C09.vo', 'theories/Inst/C09_now.vo'],
+        'coq': ['theories/Props/C09.vo', 'theories/Inst/C09_now.vo', 'theories/Inst/Wrapper_now.vo'],
         'profiles': [prof('try', (80, 20), (2000, 80)), prof('sweep:overlap_sweep.progs', (0, 2), (0, 12)), prof('progs:try_extra.progs', (0, 60), (0, 1500))],
         'monitors': ['C09'], 'liveness': True, 'panics': False,
         'trusted_base': L1_TRUST,
@@ -96,7 +96,7 @@ PROPS = {
     'C11': {
         'correspondence': {'kind': 'pipein', 'profiles': [prof('pipein', (40, 5), (400, 10)), prof('progs:pipein_extra.progs', (0, 10), (0, 60))]},
         'coq': ['theories/PipeIn/PropsC11.vo', 'theories/PipeIn/PropsC11_examples.vo', 'theories/Inst/C11_now.vo', 'theories/Inst/Fut_now.vo'],
-        'profiles': [prof('pipein', (80, 20), (1500, 60), extra=['--max-steps', '30000'])],
+        'profiles': [prof('pipein', (80, 20), (1500, 60), extra=['--max-steps', '30000']), prof('progs:pipe_yield.progs', (0, 60), (0, 1500), extra=['--max-steps', '30000'])],
         'monitors': ['C11', 'C01', 'C05'], 'liveness': True, 'panics': True,
         'trusted_base': ['PipeIn model (coq/theories/PipeIn/Model.v): hand-written, the object abstracted as one-at-a-time FIFO execution (justified by C01/C02), tied by translator facts and the run-time oracles'],
         'assumptions': ['the Desync object is abstracted as ObjExec (exclusive FIFO execution); a processing future that suspends is one step'],
@@ -104,7 +104,7 @@ PROPS = {
     'C12': {
         'correspondence': {'kind': 'pipe', 'profiles': [prof('pipe', (40, 5), (400, 10)), prof('progs:pipe_extra.progs', (0, 4), (0, 30))]},
         'coq': ['theories/Pipe/PropsC12.vo', 'theories/Inst/C12_now.vo', 'theories/Inst/Fut_now.vo'],
-        'profiles': [prof('pipe', (80, 20), (1500, 60), extra=['--max-steps', '30000'])],
+        'profiles': [prof('pipe', (80, 20), (1500, 60), extra=['--max-steps', '30000']), prof('progs:pipe_yield.progs', (0, 60), (0, 1500), extra=['--max-steps', '30000'])],
         'monitors': ['C12', 'C01', 'C05'], 'liveness': True, 'panics': True,
         'trusted_base': ['Pipe model (coq/theories/Pipe/Model.v): hand-written, the object abstracted as one-at-a-time FIFO execution (justified by C01/C02), tied by translator facts and the run-time oracles'],
         'assumptions': ['the Desync object is abstracted as ObjExec; the processing future is one step; depth 0 is excluded (it wedges the pipe by design of the code: nothing is read while pending.len() >= 0)'],
